@@ -18,7 +18,7 @@ func init() {
 		Explanation: "Decides the flow-control mechanism of RuleGroup.Eval, not data-dependent skip counts: R1 every path from the rule loop to Eval's return resets Skip, SkipAfter and a phase-scoped AllowType (path query over the SSA CFG); " +
 			"R2 every exit edge of the rule loop is classified by its guard facts and an allow-caused exit is impossible in the logging phase unless it is allow:phase (facts on the exit edge: AllowType==All needs phase!=Logging, AllowType==Request needs phase in {1,2}); " +
 			"R3 Skip/SkipAfter/AllowType have a frozen writer set and are read only by the rule loop, and Transaction.Allow stores its argument under exactly the guard RuleEngine==On; R4 exclusion lists, pending marker, skip counter and allow switch are all decided before r.Evaluate within the same iteration (facts at the call; no same-iteration path from a skipping edge to the call), a marker clears SkipAfter only on equality, the skip counter is decremented exactly once per skipped rule, an iteration bypasses the counter only for a documented cause (phase filter, removal by ctl, pending skipAfter), and the removal lists a ctl can extend are read inside the rule loop only (no snapshot); " +
-			"R5 a chain member with an explicit disruptive action is rejected and the pending chain discarded on that path; R6 allow:request is reset inside the loop only at phase 2; R7 the flow and disruptive actions of a fired rule (skip, skipAfter, allow, deny ...) are evaluated under no condition other than the chain result, the chain-starter test and the action type — in particular not depending on interruption, engine mode or phase; R8 the SecMarker and SecAction directives add their rule to the rule group on every successful path. R7 also: every write of an action record in appendRuleAction writes all of Key, Value, F and Atype.",
+			"R5 a chain member with an explicit disruptive action is rejected and the pending chain discarded on that path; R6 allow:request is reset inside the loop only at phase 2; R7 the flow and disruptive actions of a fired rule (skip, skipAfter, allow, deny ...) are evaluated under no condition other than the chain result, the chain-starter test and the action type — in particular not depending on interruption, engine mode or phase; R8 the SecMarker and SecAction directives add their rule to the rule group on every successful path. R7 also: every write of an action record in appendRuleAction writes all of Key, Value, F and Atype. R7 also: Rule.AddAction appends the action it is given on every path that reports success and never overwrites an element of the list.",
 		NotDecided: []string{
 			"exact number of rules skipped for data-dependent matches",
 			"chain link ordering beyond C01.R6",
